@@ -13,13 +13,16 @@ import (
 	"fmt"
 	"sort"
 	"strings"
+	"sync/atomic"
 	"time"
 
 	openfgav1 "github.com/openfga/api/proto/openfga/v1"
+	"google.golang.org/grpc/metadata"
 	"google.golang.org/grpc/status"
 
 	"github.com/openfga/openfga/internal/validation"
 	"github.com/openfga/openfga/pkg/server"
+	serverconfig "github.com/openfga/openfga/pkg/server/config"
 	"github.com/openfga/openfga/pkg/storage"
 	"github.com/openfga/openfga/pkg/storage/memory"
 	"github.com/openfga/openfga/pkg/tuple"
@@ -30,17 +33,20 @@ import (
 )
 
 const (
-	fQuery  = 1  // check query cache
-	fIter   = 2  // check iterator cache
-	fLoIter = 4  // list objects iterator cache
-	fShared = 8  // shared iterators
-	fCtl    = 16 // cache controller
-	fV2     = 32 // experimental weighted_graph_check
-	fPipe   = 64 // list objects pipeline
+	fQuery  = 1   // check query cache
+	fIter   = 2   // check iterator cache
+	fLoIter = 4   // list objects iterator cache
+	fShared = 8   // shared iterators
+	fCtl    = 16  // cache controller
+	fV2     = 32  // experimental weighted_graph_check
+	fPipe   = 64  // list objects pipeline (experimental pipeline_list_objects + ListObjectsPipelineEnabled)
+	fW      = 128 // weighted reverse expansion (experimental enable-list-objects-optimizations)
+
+	engineBits = fV2 | fPipe | fW // the flags that select engines, not caches: the reference instance keeps them
 )
 
 type op struct {
-	kind   string // w | chk | bat | lo | lu
+	kind   string // w | chk | bat | lo | slo (streamed) | warm (lo repeated until the iterator cache answers) | lu
 	higher bool
 	del    []fga.Tuple
 	add    []fga.Tuple
@@ -74,7 +80,7 @@ func encodeCase(m *fga.Model, ts *typesystem.TypeSystem, masks []int, tuples []f
 			for _, rq := range o.batch {
 				fmt.Fprintf(&sb, " %s %s", fga.EncodeAux(fga.Aux(m, ts, rq.User)), rq.Encode())
 			}
-		case "lo", "lu":
+		case "lo", "slo", "warm", "lu":
 			fmt.Fprintf(&sb, " %s %d %s %s", o.kind, b2i(o.higher), fga.EncodeAux(fga.Aux(m, ts, o.rq.User)), o.rq.Encode())
 		}
 	}
@@ -113,7 +119,7 @@ func decodeCase(line string) (m *fga.Model, masks []int, tuples []fga.Tuple, ops
 				fga.SkipAux(t)
 				o.batch = append(o.batch, fga.DecodeReq(t))
 			}
-		case "lo", "lu":
+		case "lo", "slo", "warm", "lu":
 			o.higher = t.Int() == 1
 			fga.SkipAux(t)
 			o.rq = fga.DecodeReq(t)
@@ -149,19 +155,59 @@ func realCheck(ts *typesystem.TypeSystem, tuples []fga.Tuple, rq fga.Req) string
 	return strings.Fields(fgarun.Check(ts, ds, fgarun.Config{MaxDepth: 25, Breadth: 1, Strategy: "default"}, rq, nil, nil))[0]
 }
 
-func pickMasks(r *hx.Rand, tier string) []int {
+// maxThis: the largest number of direct-assignment leaves in one rewrite.  A recursive relation that names
+// `this` more than once makes the streaming pipeline never return (known finding L4 of C05 / C21): such models
+// run without the pipeline flag here.
+func maxThis(m *fga.Model) int {
+	best := 0
+	var count func(rw *fga.Rewrite) int
+	count = func(rw *fga.Rewrite) int {
+		n := 0
+		if rw.Kind == "this" {
+			n = 1
+		}
+		for _, k := range rw.Kids {
+			n += count(k)
+		}
+		return n
+	}
+	for _, t := range m.Types {
+		for _, rd := range t.Rels {
+			if c := count(rd.Rewrite); c > best {
+				best = c
+			}
+		}
+	}
+	return best
+}
+
+func pickMasks(r *hx.Rand, tier string, allowPipe bool) []int {
+	masks := pickMasks0(r, tier)
+	if !allowPipe {
+		for i := range masks {
+			masks[i] &^= fPipe
+			if masks[i] == 0 {
+				masks[i] = fLoIter
+			}
+		}
+	}
+	return masks
+}
+
+func pickMasks0(r *hx.Rand, tier string) []int {
 	if tier == "thorough" && r.Chance(1, 6) {
 		var all []int
 		for k := 1; k < 32; k++ {
-			all = append(all, k|r.Intn(2)*fV2|r.Intn(2)*fPipe)
+			all = append(all, k|r.Intn(2)*fV2|r.Intn(2)*fPipe|r.Intn(2)*fW)
 		}
 		return all
 	}
 	// always: everything on (both engines), then each cache layer alone, then random subsets
+	// (the ListObjects iterator cache alone under each of the three ListObjects engines: classic, weighted, pipeline)
 	masks := []int{fQuery | fIter | fLoIter | fShared | fCtl, fQuery | fIter | fLoIter | fShared | fCtl | fV2 | fPipe,
-		fQuery, fIter, fLoIter | fPipe, fShared, fIter | fV2, fQuery | fV2}
-	for i := 0; i < 3; i++ {
-		masks = append(masks, 1+r.Intn(127))
+		fQuery, fIter, fLoIter | fPipe, fLoIter | fW, fLoIter, fShared, fIter | fV2, fQuery | fV2}
+	for i := 0; i < 2; i++ {
+		masks = append(masks, 1+r.Intn(255))
 	}
 	return masks
 }
@@ -218,6 +264,9 @@ func gen(r *hx.Rand, n int, tier string, emit func(string), st *hx.Stats) {
 						continue
 					}
 					o.rq = fga.Req{Obj: fga.TypeOf(rq.Obj) + ":x", Rel: rq.Rel, User: rq.User, Ctx: rq.Ctx}
+					if c.Chance(1, 3) {
+						o.kind = "slo"
+					}
 				case "lu":
 					ut, _, urel := fga.UserParts(rq.User)
 					if urel != "" {
@@ -235,6 +284,55 @@ func gen(r *hx.Rand, n int, tier string, emit func(string), st *hx.Stats) {
 			ops = append(ops, o)
 			cur = applyWrite(cur, o)
 		}
+		loBlock := false
+		if victim != nil && !strings.HasSuffix(focus.User, ":*") && c.Chance(2, 3) {
+			// ListObjects in the sequence  warm cache -> delete one listed tuple + add another -> HIGHER within the TTL
+			loBlock = true
+			st.Inc("with-listobjects-block")
+			lo := fga.Req{Obj: fga.TypeOf(focus.Obj) + ":x", Rel: focus.Rel, User: focus.User, Ctx: focus.Ctx}
+			clone := *victim
+			clone.Obj = fga.TypeOf(victim.Obj) + ":zz9"
+			addClone := validation.ValidateTupleForWrite(ts, clone.Key()) == nil
+			for _, t := range cur {
+				if t.String() == clone.String() {
+					addClone = false
+				}
+			}
+			listReads := func(higher bool) {
+				for _, k := range []string{"lo", "slo", "lu", "chk"} {
+					o := op{kind: k, higher: higher, rq: lo}
+					switch k {
+					case "chk":
+						o.rq = focus
+					case "lu":
+						ut, _, urel := fga.UserParts(focus.User)
+						if urel != "" || !c.Chance(1, 2) {
+							continue
+						}
+						o.rq = fga.Req{Obj: focus.Obj, Rel: focus.Rel, User: ut + ":x", Ctx: focus.Ctx}
+					}
+					if higher {
+						higherOps++
+					}
+					ops = append(ops, o)
+				}
+			}
+			ops = append(ops, op{kind: "warm", rq: lo}, op{kind: "slo", rq: lo})
+			w1 := op{kind: "w", del: []fga.Tuple{*victim}}
+			if addClone {
+				w1.add = []fga.Tuple{clone}
+			}
+			ops = append(ops, w1)
+			cur = applyWrite(cur, w1)
+			listReads(true) // must see the delete and the new object
+			w2 := op{kind: "w", add: []fga.Tuple{*victim}}
+			if addClone {
+				w2.del = []fga.Tuple{clone}
+			}
+			ops = append(ops, w2)
+			cur = applyWrite(cur, w2)
+			listReads(true) // must see the re-insert
+		}
 		if victim != nil {
 			st.Inc("with-flipping-write")
 			addReads(focus, false) // populate the caches with the pre-write state
@@ -247,7 +345,11 @@ func gen(r *hx.Rand, n int, tier string, emit func(string), st *hx.Stats) {
 			addReads(focus, false)
 		}
 		// random tail: writes and reads on related and unrelated questions
-		for j, k := 0, 2+c.Intn(8); j < k; j++ {
+		tail := 2 + c.Intn(8)
+		if loBlock {
+			tail = 1 + c.Intn(4)
+		}
+		for j, k := 0, tail; j < k; j++ {
 			switch {
 			case c.Chance(1, 3):
 				o := op{kind: "w"}
@@ -280,7 +382,7 @@ func gen(r *hx.Rand, n int, tier string, emit func(string), st *hx.Stats) {
 		if len(ops) > 40 {
 			ops = ops[:40]
 		}
-		emit(encodeCase(m, ts, pickMasks(c, tier), tuples, ops))
+		emit(encodeCase(m, ts, pickMasks(c, tier, maxThis(m) <= 1), tuples, ops))
 		i++
 		st.Inc("histories")
 		st.Add("ops", len(ops))
@@ -307,17 +409,58 @@ func permOf(r *hx.Rand, n int) []int {
 
 type inst struct {
 	srv     *server.Server
-	ds      storage.OpenFGADatastore
+	ds      *countingDS
+	mask    int
+	hung    bool
 	storeID string
 	modelID string
 }
+
+// countingDS counts the iterator reads that reach the datastore (a ListObjects request answered from the iterator
+// cache issues none)
+type countingDS struct {
+	storage.OpenFGADatastore
+	n atomic.Int64
+}
+
+func (c *countingDS) ReadStartingWithUser(ctx context.Context, store string, f storage.ReadStartingWithUserFilter, o storage.ReadStartingWithUserOptions) (storage.TupleIterator, error) {
+	c.n.Add(1)
+	return c.OpenFGADatastore.ReadStartingWithUser(ctx, store, f, o)
+}
+
+func (c *countingDS) Read(ctx context.Context, store string, f storage.ReadFilter, o storage.ReadOptions) (storage.TupleIterator, error) {
+	c.n.Add(1)
+	return c.OpenFGADatastore.Read(ctx, store, f, o)
+}
+
+func (c *countingDS) ReadUsersetTuples(ctx context.Context, store string, f storage.ReadUsersetTuplesFilter, o storage.ReadUsersetTuplesOptions) (storage.TupleIterator, error) {
+	c.n.Add(1)
+	return c.OpenFGADatastore.ReadUsersetTuples(ctx, store, f, o)
+}
+
+// streamed ListObjects: a server stream that collects the objects
+type loStream struct {
+	ctx  context.Context
+	objs []string
+}
+
+func (f *loStream) Send(r *openfgav1.StreamedListObjectsResponse) error {
+	f.objs = append(f.objs, r.GetObject())
+	return nil
+}
+func (f *loStream) SetHeader(metadata.MD) error  { return nil }
+func (f *loStream) SendHeader(metadata.MD) error { return nil }
+func (f *loStream) SetTrailer(metadata.MD)       {}
+func (f *loStream) Context() context.Context     { return f.ctx }
+func (f *loStream) SendMsg(any) error            { return nil }
+func (f *loStream) RecvMsg(any) error            { return nil }
 
 type noCloseDS struct{ storage.OpenFGADatastore }
 
 func (noCloseDS) Close() {}
 
 func newInst(mask int, pm *openfgav1.AuthorizationModel, tuples []fga.Tuple) (*inst, error) {
-	ds := memory.New()
+	ds := &countingDS{OpenFGADatastore: memory.New()}
 	ctx := context.Background()
 	if err := ds.WriteAuthorizationModel(ctx, fgarun.StoreID, pm); err != nil {
 		return nil, err
@@ -338,14 +481,26 @@ func newInst(mask int, pm *openfgav1.AuthorizationModel, tuples []fga.Tuple) (*i
 		server.WithCacheControllerEnabled(mask&fCtl != 0), server.WithCacheControllerTTL(time.Nanosecond),
 		server.WithListObjectsPipelineEnabled(mask&fPipe != 0),
 	}
+	// the experimental flags: the pipeline needs its flag AND ListObjectsPipelineEnabled (the server's default
+	// flag client knows only the experimentals it is given)
+	var exps []string
 	if mask&fV2 != 0 {
-		opts = append(opts, server.WithExperimentals("weighted_graph_check"))
+		exps = append(exps, "weighted_graph_check")
+	}
+	if mask&fPipe != 0 {
+		exps = append(exps, serverconfig.ExperimentalPipelineListObjects)
+	}
+	if mask&fW != 0 {
+		exps = append(exps, serverconfig.ExperimentalListObjectsOptimizations)
+	}
+	if len(exps) > 0 {
+		opts = append(opts, server.WithExperimentals(exps...))
 	}
 	s, err := server.NewServerWithOpts(opts...)
 	if err != nil {
 		return nil, err
 	}
-	return &inst{srv: s, ds: ds, storeID: fgarun.StoreID, modelID: pm.GetId()}, nil
+	return &inst{srv: s, ds: ds, mask: mask, storeID: fgarun.StoreID, modelID: pm.GetId()}, nil
 }
 
 func (in *inst) close() {
@@ -396,7 +551,36 @@ func joinSet(xs []string) string {
 	return strings.Join(xs, "+")
 }
 
+// run with a watchdog: an engine that does not return (the goroutine is leaked) answers "Ehang", and so does
+// every later ListObjects request of that instance.
 func (in *inst) run(o op) string {
+	if o.kind != "lo" && o.kind != "slo" {
+		return in.run0(o)
+	}
+	if in.hung {
+		return "Ehang"
+	}
+	ch := make(chan string, 1)
+	go func() {
+		defer func() {
+			if p := recover(); p != nil {
+				ch <- "Epanic"
+			}
+		}()
+		ch <- in.run0(o)
+	}()
+	t := time.NewTimer(25 * time.Second)
+	defer t.Stop()
+	select {
+	case a := <-ch:
+		return a
+	case <-t.C:
+		in.hung = true
+		return "Ehang"
+	}
+}
+
+func (in *inst) run0(o op) string {
 	ctx, cancel := context.WithTimeout(context.Background(), 20*time.Second)
 	defer cancel()
 	switch o.kind {
@@ -450,6 +634,32 @@ func (in *inst) run(o op) string {
 			}
 		}
 		return strings.Join(parts, ";")
+	case "warm":
+		// MINIMIZE_LATENCY ListObjects until a request reaches the datastore no more (the iterator cache stores
+		// its entries asynchronously); one request when the instance has no ListObjects iterator cache
+		lo := o
+		lo.kind = "lo"
+		a := in.run(lo)
+		if in.mask&fLoIter == 0 {
+			return a
+		}
+		for try := 0; try < 4; try++ {
+			time.Sleep(time.Millisecond)
+			before := in.ds.n.Load()
+			a = in.run(lo)
+			if in.ds.n.Load() == before {
+				break
+			}
+		}
+		return a
+	case "slo":
+		fs := &loStream{ctx: ctx}
+		err := in.srv.StreamedListObjects(&openfgav1.StreamedListObjectsRequest{StoreId: in.storeID, AuthorizationModelId: in.modelID,
+			Type: fga.TypeOf(o.rq.Obj), Relation: o.rq.Rel, User: o.rq.User, Context: fga.CtxStruct(o.rq.Ctx), Consistency: pref(o.higher)}, fs)
+		if err != nil {
+			return errClass(err)
+		}
+		return joinSet(append([]string(nil), fs.objs...))
 	case "lo":
 		resp, err := in.srv.ListObjects(ctx, &openfgav1.ListObjectsRequest{StoreId: in.storeID, AuthorizationModelId: in.modelID,
 			Type: fga.TypeOf(o.rq.Obj), Relation: o.rq.Rel, User: o.rq.User, Context: fga.CtxStruct(o.rq.Ctx), Consistency: pref(o.higher)})
@@ -560,7 +770,7 @@ func exec(line string, st *hx.Stats) string {
 		return r, nil
 	}
 	for _, mask := range masks {
-		ref, err := refFor(mask & (fV2 | fPipe))
+		ref, err := refFor(mask & engineBits)
 		if err != nil {
 			return "setup-failed " + strings.ReplaceAll(err.Error(), "\t", " ")
 		}
@@ -603,7 +813,7 @@ func exec(line string, st *hx.Stats) string {
 				default:
 					// ListObjects / ListUsers: sample fresh cache-less instances on the current store
 					for k := 0; k < 4; k++ {
-						if fr, err := newInst(mask&(fV2|fPipe), pm, stores[i]); err == nil {
+						if fr, err := newInst(mask&engineBits, pm, stores[i]); err == nil {
 							allowed = append(allowed, fr.run(o), fr.run(o))
 							fr.close()
 						}
